@@ -25,8 +25,8 @@ func init() {
 				"exhaustive part: every history of length <= L over a 5-block collision alphabet and all typestate operations under 16 option sets per store kind; seeded part: random histories to length 30 with swarm-drawn options (incl. ZeroLengthSectionAsEOF and, 1 in 10, a 200-byte read-side section limit); a third of them contain restarts (Discard/Finalize + reopen of the same file) after which the model must still hold. " +
 				"An execution is non-trivial when the model's content or typestate changed at least once; distinct = distinct hash of (options, op/typestate sequence, number of stored sections)",
 			Gen: GenC04, Exec: RunSessionC04, Minimise: true,
-			Assume:   []string{"the reference model's reading of the option documentation (DESIGN.md section 4/C04), including the listed sets of permitted answers", "go-cid / go-multihash compute CIDs correctly"},
-			Real:     realAll, Stub: stubDisk, Schedule: "single task (no concurrency in this property)",
+			Assume: []string{"the reference model's reading of the option documentation (DESIGN.md section 4/C04), including the listed sets of permitted answers", "go-cid / go-multihash compute CIDs correctly"},
+			Real:   realAll, Stub: stubDisk, Schedule: "single task (no concurrency in this property)",
 		}
 	})
 	RegisterPlan("C05", func(tier string) *Plan {
@@ -37,8 +37,8 @@ func init() {
 			Rule: "put histories ending in Finalize on four writers (blockstore.ReadWrite, storage.NewReadableWritable, storage.NewWritable, deferred path writer) over a simulated disk under swarm-drawn options; the finalized image is decoded by an independent reference codec and compared byte-exactly with the reference encoding of the model's sections, the index record multiset with the expected one, then Inspect(true) and (every 4th run, real temp file) lib.VerifyCar must accept. " +
 				"Non-trivial = at least one section stored; distinct = distinct (options, section count, image length)",
 			Gen: GenC05, Exec: RunSessionC05, Minimise: true,
-			Assume:       []string{"reference codec written from the CARv1/CARv2/index specifications", "CLI writers (create/filter/get-dag) are not covered: no seam"},
-			Real:         realAll, Stub: stubDisk, Schedule: "single task",
+			Assume: []string{"reference codec written from the CARv1/CARv2/index specifications", "CLI writers (create/filter/get-dag) are not covered: no seam"},
+			Real:   realAll, Stub: stubDisk, Schedule: "single task",
 			ExpectProbes: []string{"c05:verifier-applicable", "c05:store=rw", "c05:store=sc", "c05:store=sw", "c05:store=dw"},
 		}
 	})
